@@ -149,6 +149,13 @@ AbsDeleteWe(A, weid, prefixes) ==
   THEN NoReport(A, "TraphException")
   ELSE NoReport([A EXCEPT !.we = { e \in @ : e[1] \notin SeqToSet(prefixes) }], "")
 
+RECURSIVE AbsUnsetUnchecked(_, _, _)
+AbsUnsetUnchecked(A, ps, i) ==
+  IF i > Len(ps) THEN NoReport(A, "")
+  ELSE IF ps[i] \notin A.known THEN NoReport(A, "AttributeError")
+  ELSE AbsUnsetUnchecked([A EXCEPT !.we = { e \in @ : e[1] # ps[i] }], ps, i + 1)
+AbsDeleteWeUnchecked(A, prefixes) == AbsUnsetUnchecked(A, DedupSeq(prefixes), 1)
+
 AbsAddPrefix(A, p, weid) ==
   IF p \in Owned(A) THEN NoReport(Named(A, {p}), "TraphException")
   ELSE NoReport([Named(A, {p}) EXCEPT !.we = @ \cup {<<p, weid>>}], "")
